@@ -389,10 +389,10 @@ func (w *World) enabled() []action {
 				if _, used := p.views[cl.Name]; !used {
 					continue
 				}
-				if w.Cfg.Faults["compaction"] && p.lag(cl) > 1 {
+				if w.Cfg.Faults["compaction"] && p.lag(cl) > 1 && w.Stats.Faults["compaction"] < 6 {
 					acts = append(acts, action{kind: actCompact, weight: 1, proc: p, cl: cl, label: "compact " + p.Name + "/" + cl.Name})
 				}
-				if w.Cfg.Faults["duplicate"] && p.view(cl).seen > 0 {
+				if w.Cfg.Faults["duplicate"] && p.view(cl).seen > 0 && w.Stats.Faults["duplicate"] < 6 {
 					acts = append(acts, action{kind: actDup, weight: 1, proc: p, cl: cl, label: "duplicate " + p.Name + "/" + cl.Name})
 				}
 			}
